@@ -364,7 +364,10 @@ namespace GeographicLib {
      * @param[out] m arc minutes.
      **********************************************************************/
     static void Encode(real ang, real& d, real& m) {
-      d = int(ang); m = real(Math::dm) * (ang - d);
+      using std::floor;
+      // Truncate without converting to an int (ang may be huge or a nan)
+      d = ang < 0 ? -floor(-ang) : floor(ang);
+      m = real(Math::dm) * (ang - d);
     }
 
     /**
@@ -376,8 +379,12 @@ namespace GeographicLib {
      * @param[out] s arc seconds.
      **********************************************************************/
     static void Encode(real ang, real& d, real& m, real& s) {
-      d = int(ang); ang = real(Math::dm) * (ang - d);
-      m = int(ang); s = real(Math::ms) * (ang - m);
+      using std::floor;
+      // Truncate without converting to an int (ang may be huge or a nan)
+      d = ang < 0 ? -floor(-ang) : floor(ang);
+      ang = real(Math::dm) * (ang - d);
+      m = ang < 0 ? -floor(-ang) : floor(ang);
+      s = real(Math::ms) * (ang - m);
     }
 
   };
